@@ -36,9 +36,9 @@ func c13CLI(c *core.C, idx int) {
 	outsideProto := "syntax = \"proto3\";\npackage outside;\nmessage " + c13Marker + " {}\n"
 	insideProto := "syntax = \"proto3\";\npackage in.v1;\nmessage   Inside   {   string   a=1; }\n"
 	base := map[string]string{
-		"outside/o.proto":      outsideProto,
-		"o.proto":              outsideProto,
-		"ws-sibling/o.proto":   outsideProto,
+		"outside/o.proto":         outsideProto,
+		"o.proto":                 outsideProto,
+		"ws-sibling/o.proto":      outsideProto,
 		"ws/proto/in/v1/in.proto": insideProto,
 	}
 	env := run.BufEnv(filepath.Join(c.Tmp, "home"), nil)
